@@ -215,6 +215,7 @@ class Engine:
         lg = logging.getLogger("pymoca")
         lg.addHandler(logging.NullHandler())
         lg.propagate = False
+        self.ref_world = procs.RefWorld()
 
     def gen_plan(self, rng, config, tier, prop):
         spec = gen_spec(rng)
@@ -302,12 +303,16 @@ class Engine:
         distinct = set()
         viol = None
         classes = model_classes(spec)
-        single = P.parse(render_single(spec))
         files = render_split(spec, assign)
         own_idx = 0
-        if single is None:
-            raise core.HarnessError("generated single-file library does not parse")
-        ref = self.flat_all(pickle.dumps(single), classes)
+        with self.ref_world:
+            # the reference (the library in ONE file) is computed in the reference process: a separate copy of the package
+            import pymoca.parser as RP
+
+            single = RP.parse(render_single(spec))
+            if single is None:
+                raise core.HarnessError("generated single-file library does not parse")
+            ref = self.flat_all(pickle.dumps(single), classes)
         counts["reference_classes_ok"] = sum(1 for v in ref.values() if v[0] == "ok")
         counts["reference_classes_fail"] = sum(1 for v in ref.values() if v[0] == "fail")
         parsed = []
@@ -405,12 +410,15 @@ class Engine:
         with fsim.REAL_OPEN(os.path.join(sdir, spec["P"] + ".mo"), "w") as f:
             f.write(render_single(spec))
         api_ref = {}
-        for c in targets[:2]:
-            try:
-                m = api.transfer_model(sdir, c, {"replace_constant_values": True})
-                api_ref[c] = ("ok", self.var_names(m))
-            except Exception as e:
-                api_ref[c] = ("fail", type(e).__name__)
+        with self.ref_world:
+            import pymoca.backends.casadi.api as ref_api
+
+            for c in targets[:2]:
+                try:
+                    m = ref_api.transfer_model(sdir, c, {"replace_constant_values": True})
+                    api_ref[c] = ("ok", self.var_names(m))
+                except Exception as e:
+                    api_ref[c] = ("fail", type(e).__name__)
         for order in all_orders:
             sub_orders = {d: rng.sample(v, len(v)) for d, v in names_by_dir.items() if d != top}
 
